@@ -1,0 +1,118 @@
+//go:build verif
+
+package rockredis
+
+import (
+	"errors"
+	"sync/atomic"
+	"time"
+)
+
+// Accessors for the verification harness (/verif, group Expire, property C10).
+// Built only with -tags verif. No behaviour of its own: every function calls the
+// production function with the arguments the harness chose.
+
+// VerifExpireConsts returns the constants of the expiry mechanism.
+func VerifExpireConsts() map[string]int64 {
+	return map[string]int64{
+		"header_v1_len":        headerV1Len,
+		"lazy_clean_secs":      lazyCleanExpired.Nanoseconds() / int64(time.Second),
+		"min_expired_possible": minExpiredPossible,
+		"time_update_freq":     int64(timeUpdateFreq),
+		"ts_len":               tsLen,
+		"exp_time_type":        int64(ExpTimeType),
+		"list_initial_seq":     listInitialSeq,
+	}
+}
+
+// VerifCompactFilter runs the registered compaction filter (rockCompactFilter.Filter) on one raw
+// engine pair. ok is false when no filter is registered (policy other than wait_compact).
+func (r *RockDB) VerifCompactFilter(key, value []byte) (remove bool, ok bool) {
+	if r.compactFilter == nil {
+		return false, false
+	}
+	rm, _ := r.compactFilter.Filter(0, key, value)
+	return rm, true
+}
+
+// VerifCompactFilterClock returns the wall-clock second cached by the compaction filter (0 = never read).
+func (r *RockDB) VerifCompactFilterClock() int64 {
+	if r.compactFilter == nil {
+		return 0
+	}
+	return atomic.LoadInt64(&r.compactFilter.cachedTimeSec)
+}
+
+// VerifRawDelete removes raw engine keys directly: what a compaction that obeyed the filter's
+// decision for these keys does (engines without compaction-filter support never call the filter).
+func (r *RockDB) VerifRawDelete(keys [][]byte) error {
+	wb := r.rockEng.NewWriteBatch()
+	defer wb.Destroy()
+	for _, k := range keys {
+		wb.Delete(k)
+	}
+	return r.rockEng.Write(wb)
+}
+
+// VerifLocalExpireTick runs one iteration of the body of localExpiration.applyExpiration
+// (TTLChecker.check into a local batched buffer, then commit) synchronously and returns the
+// number of expired index entries the scan collected.
+func (r *RockDB) VerifLocalExpireTick() (int, error) {
+	var c *TTLChecker
+	switch e := r.expiration.(type) {
+	case *localExpiration:
+		c = e.TTLChecker
+	case *compactExpiration:
+		c = e.localExp.TTLChecker
+	default:
+		return 0, errors.New("no ttl checker")
+	}
+	buf := newLocalBatchedBuffer(r, localBatchedBufSize)
+	defer buf.Destroy()
+	stop := make(chan struct{})
+	err := c.check(buf, stop)
+	n := len(buf.buff)
+	buf.commit()
+	return n, err
+}
+
+// VerifHeaderOf returns the stored value header of a key (KV value header or collection meta
+// header) without any expiry decision: exists, ExpireAt, ValueVersion.
+func (r *RockDB) VerifHeaderOf(dt byte, key []byte) (bool, uint32, int64, error) {
+	mk, err := encodeMetaKey(dt, key)
+	if err != nil {
+		return false, 0, 0, err
+	}
+	v, err := r.GetBytes(mk)
+	if err != nil || v == nil {
+		return false, 0, 0, err
+	}
+	var h headerMetaValue
+	if _, err := h.decode(v); err != nil {
+		return true, 0, 0, err
+	}
+	return true, h.ExpireAt, h.ValueVersion, nil
+}
+
+// VerifExpiredAt evaluates the production expiry decision of the read path (expiration.isExpired on
+// the stored header) with the read clock tn chosen by the caller instead of time.Now().
+func (r *RockDB) VerifExpiredAt(tn int64, dt byte, key []byte) (exists bool, expired bool, err error) {
+	if dt == KVType {
+		_, _, v, exp, err := r.getRawDBKVValue(tn, key, true)
+		return v != nil, exp, err
+	}
+	h, exp, err := r.collHeaderMeta(tn, dt, key, true)
+	if err != nil {
+		return false, false, err
+	}
+	return h.UserData != nil, exp, nil
+}
+
+// VerifTTLAt is KVTtl/HashTtl/ListTtl/SetTtl/ZSetTtl with the read clock tn chosen by the caller.
+func (r *RockDB) VerifTTLAt(tn int64, dt byte, key []byte) (int64, error) {
+	v, err := r.expiration.getRawValueForHeader(tn, dt, key)
+	if err != nil {
+		return -1, err
+	}
+	return r.ttl(tn, dt, key, v)
+}
